@@ -892,7 +892,7 @@ Section WithHash.
        rq_input := match fl with FInput => v | _ => rq_input r end;
        rq_recon := match fl with FRecon => v | _ => rq_recon r end |}.
 
-  Inductive cmut := MNone | MRequest (v : N) | MAttempt (v : N) | MAdapter (v : N) | MBasis (v : N)
+  Inductive cmut := MNone | MRequestOf (q : N) | MRequest (v : N) | MAttempt (v : N) | MAdapter (v : N) | MBasis (v : N)
                   | MSchema (v : N) | MDigest (v : N) | MSchemaEv (v : N) | MExtEv (v : N) | MBytes (b : bytes).
   Definition mutate_cand (s : settle) (m : cmut) : settle :=
     {| st_request := match m with MRequest v => v | _ => st_request s end;
@@ -1004,6 +1004,10 @@ Section WithHash.
     | CCand g k bytes sev eev m =>
         match nthN (cs_grants cs) g with
         | Some (Some (r, c, _)) =>
+            let m := match m with
+                     | MRequestOf q => match nthN (cs_reqs cs) q with Some r' => MRequest (rq_id r') | None => MNone end
+                     | _ => m
+                     end in
             let s := mutate_cand
                        {| st_request := rq_id r; st_attempt := cl_attempt c; st_adapter := cl_adapter c; st_kind := k;
                           st_schema := rq_set_schema r; st_basis := rq_basis r; st_bytes := bytes;
@@ -1066,19 +1070,13 @@ Section WithHash.
 
   Fixpoint crun_from (cs : cstate) (cops : list cop) :=
     match cops with
-    | [] => []
+    | [] => ([], cs)
     | c :: r =>
         let '(cs', o) := cstep cs c in
-        (o, observe_sys (get_sys cs' (cop_sys c))) :: crun_from cs' r
+        let '(outs, csf) := crun_from cs' r in
+        ((o, observe_sys (get_sys cs' (cop_sys c))) :: outs, csf)
     end.
   Definition crun (cops : list cop) := crun_from init_cstate cops.
-
-  (* recover(store) of the final state of both systems after the run (model-side cross-check) *)
-  Fixpoint cfinal_from (cs : cstate) (cops : list cop) : cstate :=
-    match cops with
-    | [] => cs
-    | c :: r => cfinal_from (fst (cstep cs c)) r
-    end.
 End WithHash.
 
 (* flat rendering of a driver output: (class, payload, error) *)
@@ -1097,12 +1095,12 @@ Definition render_cout (o : cout) : N * list N * option err :=
 
 (* the instance that is executed against the implementation *)
 Definition DEPTH : nat := 256.
+(* per-op outputs, then recover(store) of both systems at the end of the run, observed like a
+   live system (a failed recovery shows the live coordinator) *)
 Definition crun256 (cops : list cop) :=
-  map (fun x => (render_cout (fst x), snd x)) (crun B3.hash DEPTH cops).
-(* recover(store) of both systems at the end of the run, observed like a live system *)
-Definition cfinal256 (cops : list cop) :=
-  let cs := cfinal_from B3.hash DEPTH init_cstate cops in
-  map (fun s => match recover B3.hash DEPTH (sy_store s) with
-                | Ok co => (None, observe_sys B3.hash DEPTH {| sy_store := sy_store s; sy_coord := co |})
-                | Err e => (Some e, observe_sys B3.hash DEPTH s)
-                end) [cs_a cs; cs_b cs].
+  let '(outs, cs) := crun B3.hash DEPTH cops in
+  (map (fun x => (render_cout (fst x), snd x)) outs,
+   map (fun s => match recover B3.hash DEPTH (sy_store s) with
+                 | Ok co => (None, observe_sys B3.hash DEPTH {| sy_store := sy_store s; sy_coord := co |})
+                 | Err e => (Some e, observe_sys B3.hash DEPTH s)
+                 end) [cs_a cs; cs_b cs]).
